@@ -270,6 +270,7 @@ func c10Monitor(s *authSys, ev authEvent, trip int, resp *http.Response, err err
 		}
 	}
 	tokenReqBefore := false
+	refusedFull := false // a token request of this call asked for the full scope and was refused
 	var lastChallenge string
 	haveChallenge := false
 	regTrips := 0
@@ -353,11 +354,20 @@ func c10Monitor(s *authSys, ev authEvent, trip int, resp *http.Response, err err
 				if haveChallenge && setContains(chal, setUnion(reqSet, desSet)) && len(chal) > 0 && text != lastChallenge {
 					viol("challenge-scope-text-not-kept", fmt.Sprintf("scope text %q verbatim (required and desired add nothing)", lastChallenge), fmt.Sprintf("%q", text))
 				}
+				if x.Status != 200 {
+					refusedFull = true
+				}
 			case haveChallenge && setEqual(asked, chal):
 				// fallback after the token server refused the wider request
+				if !refusedFull {
+					viol("narrow-token-request-without-asking-for-the-full-scope-first", fmt.Sprintf("a token request for challenge+required+desired = %q + %q + %q; the challenge scope alone only after that was refused in this call", lastChallenge, ev.Required, ev.Desired), fmt.Sprintf("%q", text))
+				}
 			case !haveChallenge && setEqual(asked, reqSet):
 				// the same fallback on the proactive path (remembered challenge + refresh token, no 401 in
 				// this call): the wider request was refused, the required scope alone is asked for
+				if !refusedFull {
+					viol("narrow-token-request-without-asking-for-the-full-scope-first", fmt.Sprintf("a token request for required+desired = %q + %q; the required scope alone only after that was refused in this call", ev.Required, ev.Desired), fmt.Sprintf("%q", text))
+				}
 			default:
 				viol("token-request-scope", fmt.Sprintf("challenge+required+desired = %q + %q + %q (or, on the fallback, the challenge scope alone / the required scope alone when no challenge was received in this call)", lastChallenge, ev.Required, ev.Desired), fmt.Sprintf("%q", text))
 			}
